@@ -34,6 +34,11 @@ int gh_resolved_by_me;    /* this thread swung the slot to DISABLED             
 cv_i32 gh_state_at_resolve, gh_value_at_resolve; void *gh_exc_at_resolve; void *gh_chain_at_resolve;
 int gh_n_slot_rmw;        /* number of successful RMWs by this thread on the slot            */
 unsigned gh_env_claims;   /* number of times another thread took the token out of the cell  */
+/* snapshot of my node's plain fields at the instant it is published (unit hook) */
+void *gh_push_handle, *gh_push_fn, *gh_push_next;
+#ifndef CV_F_NODE_SNAPSHOT
+#define CV_F_NODE_SNAPSHOT(n)
+#endif
 #ifndef CV_F_STATE_AT
 #define CV_F_STATE_AT(slot) 0
 #define CV_F_VALUE_AT(slot) 0
@@ -46,7 +51,7 @@ unsigned gh_env_claims;   /* number of times another thread took the token out o
 #define C03_ASSERT(c, msg)
 #endif
 /* every ghost the primitives may write (for assigns clauses) */
-#define PROTF_GHOSTS gh_tok, gh_view, gh_pending_acq, gh_rel_slot, gh_seen, gh_resolved_by_me, gh_state_at_resolve, gh_value_at_resolve, gh_exc_at_resolve, gh_chain_at_resolve, gh_n_slot_rmw, gh_node_own, gh_env_claims
+#define PROTF_GHOSTS gh_push_handle, gh_push_fn, gh_push_next, gh_my_node, gh_tok, gh_view, gh_pending_acq, gh_rel_slot, gh_seen, gh_resolved_by_me, gh_state_at_resolve, gh_value_at_resolve, gh_exc_at_resolve, gh_chain_at_resolve, gh_n_slot_rmw, gh_node_own, gh_env_claims
 #define HAS_REL(o) ((o) == 3 || (o) == 4 || (o) == 5)
 #define HAS_ACQ(o) ((o) == 1 || (o) == 2 || (o) == 4 || (o) == 5)
 #define F_DIS (gh_DISABLED)
@@ -117,7 +122,7 @@ cv_i64 cv_atomic_xchg_i64(cv_i64 *p, cv_i64 v, int ord) {
       C03_ASSERT(HAS_REL(ord), "C03: the exchange that marks the future ready must have release semantics (payload written before is otherwise never published)");
       C03_ASSERT(HAS_ACQ(ord), "C03: the exchange that detaches the waiters must have acquire semantics (their node fields were published by release CAS)");
       gh_state_at_resolve = CV_F_STATE_AT(p); gh_value_at_resolve = CV_F_VALUE_AT(p); gh_exc_at_resolve = CV_F_EXC_AT(p);
-      gh_chain_at_resolve = (old == F_INS) ? (void *)0 : old;
+      gh_chain_at_resolve = old;      /* may be INSTANCE (resolved before anybody subscribed): a harmless node with an empty function */
       gh_tok = TOK_SPENT; gh_resolved_by_me = 1; gh_view |= V_PAYLOAD;
       if (gh_node_own == OWN_CHAIN) gh_node_own = OWN_RESOLVER;
     } else {
@@ -135,9 +140,11 @@ cv_i1 cv_cmpxchg_i64(cv_i64 *p, cv_i64 *expected, cv_i64 desired, int weak, int 
     void *cur = *gh_F_slot;
     if (cur == (void *)*expected && !(weak && nondet_bool())) {
       __CPROVER_assert(cur != F_DIS, "protocol F: subscription pushed onto the ready marker (the marker is final)");
-      __CPROVER_assert((void *)desired == gh_my_node && gh_node_own == OWN_ME, "protocol F: a thread may only push an awaiter node it owns");
+      if (gh_my_node == 0) { gh_my_node = (void *)desired; gh_node_own = OWN_ME; }      /* a node created inside the function under verification (e.g. the sync_awaiter of sync()) */
+      __CPROVER_assert((void *)desired == gh_my_node && gh_node_own == OWN_ME, "protocol F: a thread may only push an awaiter node it owns (and only once)");
       C03_ASSERT(HAS_REL(so), "C03: the subscribing CAS must have release semantics (publishes the node's fields)");
       vis_store(&gh_rel_slot, so, 1); vis_load(gh_rel_slot, so);
+      CV_F_NODE_SNAPSHOT(desired);
       gh_node_own = OWN_CHAIN; gh_seen = cur; gh_n_slot_rmw++;
       *gh_F_slot = (void *)desired; return 1; }
     vis_load(gh_rel_slot, fo);
@@ -165,5 +172,17 @@ cv_i64 cv_atomic_and_i64(cv_i64 *p, cv_i64 v, int ord) { cv_i64 o = *p; *p = o &
   T cv_atomic_sub_##sfx(T *p, T v, int ord) { T old = *p; *p = old - v; return old; } \
   T cv_atomic_or_##sfx(T *p, T v, int ord) { T old = *p; *p = old | v; return old; } \
   T cv_atomic_and_##sfx(T *p, T v, int ord) { T old = *p; *p = old & v; return old; }
-CV_DEF_ATOMIC_SEQ(i8, cv_i8)
+/* a registered wake-up flag (sync_awaiter::flag): the setter must release, the waiter acquires (C03) */
+cv_i8 *gh_W_flag;
+cv_i8 cv_atomic_load_i8(cv_i8 *p, int ord) { return *p; }
+void cv_atomic_store_i8(cv_i8 *p, cv_i8 v, int ord) {
+  if (p == gh_W_flag) { C03_ASSERT(HAS_REL(ord), "C03: the store that wakes a blocked waiter must have release semantics (it carries the result to the waiting thread)"); }
+  *p = v; }
+cv_i1 cv_cmpxchg_i8(cv_i8 *p, cv_i8 *expected, cv_i8 desired, int weak, int so, int fo) {
+  cv_i8 old = *p; if (old == *expected && !(weak && nondet_bool())) { *p = desired; return 1; } *expected = old; return 0; }
+cv_i8 cv_atomic_xchg_i8(cv_i8 *p, cv_i8 v, int ord) { cv_i8 old = *p; *p = v; return old; }
+cv_i8 cv_atomic_add_i8(cv_i8 *p, cv_i8 v, int ord) { cv_i8 old = *p; *p = old + v; return old; }
+cv_i8 cv_atomic_sub_i8(cv_i8 *p, cv_i8 v, int ord) { cv_i8 old = *p; *p = old - v; return old; }
+cv_i8 cv_atomic_or_i8(cv_i8 *p, cv_i8 v, int ord) { cv_i8 old = *p; *p = old | v; return old; }
+cv_i8 cv_atomic_and_i8(cv_i8 *p, cv_i8 v, int ord) { cv_i8 old = *p; *p = old & v; return old; }
 CV_DEF_ATOMIC_SEQ(i32, cv_i32)
